@@ -58,6 +58,15 @@ class World {
       K: class K { constructor (v) { this.v = v } },
       tag: (strs, ...vals) => vals.join(''),
       reg: (name, fn, kind) => { self.callables.push({ name, fn, kind }); if (self.callables.length > self.limits.registry) self.callables.shift() },
+      regObj: (name, obj, members) => {
+        for (const m of members) {
+          if (m.kind === 'method') self.callables.push({ name: name + '.' + m.name, fn: (a) => obj[m.name](a), kind: 'fn' })
+          else if (m.kind === 'genmethod') self.callables.push({ name: name + '.' + m.name, fn: (a) => obj[m.name](a), kind: 'gen' })
+          else if (m.kind === 'getter') self.callables.push({ name: name + '.' + m.name, fn: () => obj[m.name], kind: 'fn' })
+          else self.callables.push({ name: name + '.' + m.name, fn: () => { obj[m.name] = 1 }, kind: 'fn' })
+        }
+        while (self.callables.length > self.limits.registry) self.callables.shift()
+      },
       regClass: (name, C, members) => { self.classes.push({ name, C, members }); if (self.classes.length > 12) self.classes.shift() },
       enter: (act, name) => { self.ev('enter', act); self.stat('activations') },
       caught: (act, e) => { self.ev('catch', act); if (!(e instanceof SimFault)) self.foreign(e, 'caught by generated catch') }
